@@ -61,9 +61,17 @@ func Verif_C18_A2_Any() {
 		members = append(members, m)
 	}
 	a := NewAnyAuthorizer(members)
+	if k == 3 && vnd.Choose(2) == 1 {
+		// nested: any(any(m0, m1), m2) must answer like any(m0, m1, m2)
+		vnd.Cover("nested")
+		a = NewAnyAuthorizer([]Authorizer{NewAnyAuthorizer(members[:2]), members[2]})
+	}
 	nq := 1 + vnd.Choose(len(names))
-	query := names[:nq]
+	query := append([]digest.InstanceName(nil), names[:nq]...)
 	errs := a.Authorize(ctx, query)
+	for i := range query {
+		vnd.Assert(query[i] == names[i], "'any' modified the caller's list of instance names")
+	}
 	vnd.Assert(len(errs) == len(query), "result of 'any' is not index-aligned with the instance names")
 	for i := range query {
 		// specification: walk the members in order; the first one that does not deny decides
